@@ -252,16 +252,12 @@ func (d *Decoder) readTypedList(tag byte) (interface{}, error) {
 			return nil, newCodecError("readTypedList", err)
 		}
 
-		if item == nil {
-			break
-		}
-
-		v := EnsureRawValue(item)
+		// a null element is a value, not the end of the list
 		if isVariableArr {
-			aryValue = reflect.Append(aryValue, v)
+			aryValue = reflect.Append(aryValue, convertTo(aryType.Elem(), item))
 			holder.change(aryValue)
 		} else {
-			SetValue(aryValue.Index(j), v)
+			SetValue(aryValue.Index(j), EnsureRawValue(item))
 		}
 	}
 
@@ -303,7 +299,7 @@ func (d *Decoder) readUntypedList(tag byte) (interface{}, error) {
 	holder := d.addDecoderRef(aryValue)
 
 	for j := 0; j < length || isVariableArr; j++ {
-		it, err := d.ReadData()
+		it, err := EnsureInterface(d.ReadData())
 		if err != nil {
 			if err == io.EOF && isVariableArr {
 				break
@@ -312,7 +308,7 @@ func (d *Decoder) readUntypedList(tag byte) (interface{}, error) {
 		}
 
 		if isVariableArr {
-			aryValue = reflect.Append(aryValue, EnsureRawValue(it))
+			aryValue = reflect.Append(aryValue, reflect.ValueOf(&it).Elem())
 			holder.change(aryValue)
 		} else {
 			ary[j] = it
